@@ -1,5 +1,5 @@
 """C09 / C06 / C05 — Zip::next (src/operator/zip.rs): positional one-to-one pairing."""
-import os, sys
+import os, re, sys
 sys.path.insert(0, os.path.dirname(os.path.dirname(__file__)))
 import std_specs as S
 
@@ -127,7 +127,7 @@ def build(x):
     st.text = '#[verifier::reject_recursive_types(Out1)]\n#[verifier::reject_recursive_types(Out2)]\n' + st.text
     pieces += [st, SPEC_IMPL]
     nx = x.method(F, 'Zip', 'next', trait='Operator')
-    nx.sub('V-SUBST', r'item\.map\(\|_\| unreachable!\(\)\)', 'retype_control(item)', detail='StreamElement::map with a never-called closure on a control element -> contracted stub', must=True)
+    nx.sub('V-SUBST', r'(\w+)\.map\(\|_\| unreachable!\(\)\)', r'retype_control(\1)', detail='StreamElement::map with a never-called closure on a control element -> contracted stub', must=True)
     nx.name_result('r')
     nx.add_spec(NEXT_SPEC)
     nx.text = '#[verifier::exec_allows_no_decreases_clause]\n' + nx.text
@@ -141,7 +141,8 @@ def build(x):
                 self.stash2@ =~= old(self).stash2@ + rights(Self::pulled(old(self), self)),
                 self.stash1@.len() <= 1 || self.stash2@.len() <= 1,
 ''')
-    nx.insert_before('let item = self.prev.next();', 'let ghost h0 = self.prev.hist();\n            ')
-    nx.insert_after('let item = self.prev.next();', '\n            proof { let k = old(self).prev.hist().len() as int; assert(self.prev.hist().skip(k) =~= h0.skip(k).push(item)); lemma_sides_push(h0.skip(k), item); }')
+    nx.bind('item', r'let (\w+)(?:\s*:\s*[^=;]+)? = self\.prev\.next\(\);')
+    nx.insert_before(re.compile(r'let \w+(?:\s*:\s*[^=;]+)? = self\.prev\.next\(\);'), 'let ghost h0 = self.prev.hist();\n            ')
+    nx.insert_after(re.compile(r'let \w+(?:\s*:\s*[^=;]+)? = self\.prev\.next\(\);'), '\n            proof { let k = old(self).prev.hist().len() as int; assert(self.prev.hist().skip(k) =~= h0.skip(k).push(@{item})); lemma_sides_push(h0.skip(k), @{item}); }')
     pieces += ["impl<Out1: ExchangeData, Out2: ExchangeData> Zip<Out1, Out2> {", nx, "}"]
     return pieces
